@@ -48,6 +48,9 @@ pub struct GraphSpec {
     /// set, but built through the combine code path and its storage layout
     #[serde(default)]
     pub combine_parts: usize,
+    /// provenance: the BaseGraph is serialised (serde_json) and read back before it is finished
+    #[serde(default)]
+    pub via_serde: bool,
 }
 
 /// Free-form node set: random substrings of the reads, terminal k-mers distinct per side.
@@ -108,6 +111,7 @@ pub fn gen_graph_spec(rng: &mut Rng, ktypes: &[&str], max_reads: usize, max_len:
         reads,
         direct_nodes: Vec::new(),
         combine_parts: if rng.chance(1, 4) { rng.range(2, 5) } else { 0 },
+        via_serde: rng.chance(1, 8),
     }
 }
 
@@ -139,6 +143,11 @@ pub fn removal_ranges(n: usize) -> Vec<(usize, usize)> {
 
 pub fn shrink_graph_spec(g: &GraphSpec) -> Vec<GraphSpec> {
     let mut out = Vec::new();
+    if g.via_serde {
+        let mut x = g.clone();
+        x.via_serde = false;
+        out.push(x);
+    }
     if g.combine_parts >= 2 {
         let mut x = g.clone();
         x.combine_parts = 0;
